@@ -569,3 +569,40 @@ func (e *Engine) writesFields(fn *ssa.Function) bool {
 	e.writes[fn] = res
 	return res
 }
+
+// R-RESTORE. A scanner that, on some failing path, moves the cursor and then puts it back (Rewind(mark), Move(-k))
+// shows that its failure means "nothing consumed". It is then held to that on every failing path: a failing return
+// with a net displacement makes the caller retry from the wrong place. Functions that never restore (scan-until
+// helpers that report whether they found their terminator; scanners whose failure the caller turns into an error
+// at the failure point) carry no such obligation. No names and no exception table are involved.
+type failExit struct {
+	st     *State
+	pos    token.Pos
+	lo, hi int
+	moved  bool
+}
+
+func (e *Engine) finishRestore() {
+	var fns []*ssa.Function
+	for f := range e.failExits {
+		fns = append(fns, f)
+	}
+	sort.Slice(fns, func(i, j int) bool { return fnLabel(fns[i]) < fnLabel(fns[j]) })
+	for _, f := range fns {
+		exits := e.failExits[f]
+		restores := false
+		for _, x := range exits {
+			if x.moved && x.lo == 0 && x.hi == 0 {
+				restores = true
+			}
+		}
+		if !restores || e.failurePropagated(f) {
+			continue
+		}
+		key := fnLabel(f) + " failure restores the position"
+		for _, x := range exits {
+			e.check(x.st, "R-RESTORE", key, x.pos, x.lo == 0 && x.hi == 0,
+				fmt.Sprintf("the scanner puts the cursor back on some failing paths but returns its failure value after a net displacement in [%s,%s] here: the bytes moved over end up in the next token (or are rescanned) although the caller was told nothing was consumed", infs(x.lo), infs(x.hi)))
+		}
+	}
+}
